@@ -11,10 +11,13 @@
 (* recomputes SepGC / CosSep from the case and accepts only the exact value.       *)
 (*                                                                                *)
 (* kinds of case                                                                   *)
-(*  eqn    [path, rhs, tol9, frame, b1950]   obs: one per input point               *)
-(*         [k, p (PtD / PtR), err, fin, lat, el, eh, ul, d9]                        *)
-(*         fin: every intermediate and final output finite; lat: every output      *)
-(*         latitude in [-90, 90]; el / eh: floor / ceiling of the smallest /       *)
+(*  eqn    [path, rhs, tol9, frame, b1950, dt, rep]   obs: one per input point      *)
+(*         [k, p (PtD / PtR), err, fin, lx, el, eh, ul, d9]                         *)
+(*         dt: the dtype= option given to every conversion that documents one;      *)
+(*         rep: how the input arrays were represented (Frames.Reps);                *)
+(*         fin: every intermediate and final output finite; lx: largest excess of   *)
+(*         an output latitude over +-90 degrees (1e-9 degree, rounded up);          *)
+(*         ul in ulp of the type asked for; el / eh: floor / ceiling of the smallest / *)
 (*         largest eta returned by eq2sdss along both sides (0 when none);          *)
 (*         ul: largest | |v| - 1 | of the unit vectors returned by eq2xyz in        *)
 (*         units of 2^-52, rounded up; d9: separation of the two sides' endpoints   *)
@@ -48,18 +51,19 @@ Fails(cond, name) == IF cond THEN {} ELSE {name}
 
 \* ---- path equations ---------------------------------------------------------------------------
 EqnWellFormed(c) == /\ ValidPath(c.path) /\ HasCanon(c.path) /\ Len(c.path) >= 2
-                    /\ c.rhs = Canon(c.path) /\ c.tol9 = EqnTol9(c.path) /\ c.frame = PathSrc(c.path)
+                    /\ c.dt \in DTypes /\ c.rep \in Reps
+                    /\ c.rhs = Canon(c.path) /\ c.tol9 = EqnTol9x(c.path, c.dt, c.rep) /\ c.frame = PathSrc(c.path)
 EqnObs(c, o) ==
     IF ~ValidIn(c.frame, o.p) THEN {"malformed_case"}
     ELSE IF o.err # "none" THEN {"no_error"}
     ELSE IF ~o.fin THEN {"finite"}
-    ELSE Fails(o.lat, "lat_range")
+    ELSE Fails(o.lx <= LatSlack9(EqnPrec(c.path, c.dt, c.rep)), "lat_range")
          \cup Fails((\E k \in DOMAIN c.path : HasLonRange(c.path[k])) => (LonLo(7) <= o.el /\ o.eh <= LonHi(7)), "lon_range")
          \cup Fails(o.ul <= UnitTol52, "unit_length")
-         \cup Fails(o.d9 <= EqnTol9(c.path), EqnKind(c.path))
+         \cup Fails(o.d9 <= EqnTol9x(c.path, c.dt, c.rep), EqnKind(c.path))
 
 \* ---- isometry -----------------------------------------------------------------------------------
-IsoWellFormed(c) == c.sel \in 1..11 /\ c.tol9 = IsoTol9(c.sel)
+IsoWellFormed(c) == c.sel \in 1..17 /\ c.tol9 = IsoTol9(c.sel)
                     /\ IF c.kind = "iso" THEN GValid(c.p) ELSE SIsUnit(c.u)
 IsoObs(c, o) ==
     IF c.kind = "iso" /\ ~(GValid(o.q) /\ GDefined(c.p, o.q)) THEN {"malformed_case"}
@@ -72,11 +76,11 @@ IsoObs(c, o) ==
                   ELSE o.dd > 0 /\ REq(<<o.dn, o.dd>>, CosSep(c.u, o.v)), "isometry")
 
 \* ---- anchors --------------------------------------------------------------------------------------
-AnchorWellFormed(c) == c.sel \in 1..6 /\ c.a \in Anchors(c.sel) /\ c.tol9 = AnchorTol9
+AnchorWellFormed(c) == c.sel \in 1..6 /\ c.a \in Anchors(c.sel) /\ c.dt \in DTypes /\ c.tol9 = AnchorTol9x(c.dt)
 AnchorObs(c, o) ==
     IF o.err # "none" THEN {"no_error"}
     ELSE IF ~o.fin THEN {"finite"}
-    ELSE Fails(o.lat, "lat_range") \cup Fails(o.d9 <= AnchorTol9, "anchor")
+    ELSE Fails(o.lx <= LatSlack9(IF c.dt = "f4" THEN "f4" ELSE "f8"), "lat_range") \cup Fails(o.d9 <= AnchorTol9x(c.dt), "anchor")
 
 \* ---- rotate -----------------------------------------------------------------------------------------
 CubeWellFormed(c) == Len(c.q) = 3 /\ Len(c.pts) >= 1 /\ \A k \in DOMAIN c.pts : SIsUnit(c.pts[k])
@@ -84,12 +88,12 @@ CubeObs(c, o) ==
     IF o.err # "none" THEN {"no_error"}
     ELSE IF ~o.fin THEN {"finite"}
     ELSE Fails(IsCubeRotation(c.pts, o.imgs), "cube_rotation")
-RotWellFormed(c) == c.cands = InvCands /\ c.tol9 = RotTol9
+RotWellFormed(c) == c.cands = InvCands /\ c.rep \in Reps /\ c.tol9 = RotTol9x(c.rep)
 RotObs(c, o) ==
     IF o.err # "none" THEN {"no_error"}
     ELSE IF ~o.fin THEN {"finite"}
-    ELSE Fails(o.lat, "lat_range")
-         \cup Fails(Len(o.ds) = Len(InvCands) /\ \E k \in DOMAIN o.ds : o.ds[k] <= RotTol9, "rotate_inverse")
+    ELSE Fails(o.lx <= LatSlack9(IF c.rep = "f4" THEN "f4" ELSE "f8"), "lat_range")
+         \cup Fails(Len(o.ds) = Len(InvCands) /\ \E k \in DOMAIN o.ds : o.ds[k] <= RotTol9x(c.rep), "rotate_inverse")
 
 \* ---- shiftlon / shiftra ---------------------------------------------------------------------------
 ShiftWellFormed(c) == c.kind = "shift" => (c.F > 0 /\ 0 <= c.lon /\ c.lon < c.F)
@@ -106,7 +110,8 @@ ShiftObs(c, o) ==
                          ELSE IF o.mode = "wrap" THEN o.gem180 /\ o.le180 ELSE TRUE, "shift_interval")
 
 \* ---- eq2xyz on the rational sphere --------------------------------------------------------------------
-XyzWellFormed(c) == SIsUnit(c.u)
+\* units in {deg, rad} x dtype; the expected image is the point itself, at the resolution asked for
+XyzWellFormed(c) == SIsUnit(c.u) /\ c.units \in {"deg", "rad"} /\ c.dt \in DTypes /\ c.tol9 = XyzTol9(c.dt)
 XyzObs(c, o) ==
     IF o.err # "none" THEN {"no_error"}
     ELSE IF ~o.fin THEN {"finite"}
